@@ -422,7 +422,7 @@ const watchdog = 120 * time.Second
 var scratchRoot = "/dev/shm/verif-c12"
 
 func main() {
-	r := ev.Start("C12", "exploration", 6*time.Minute, 36*time.Minute)
+	r := ev.Start("C12", "exploration", 6*time.Minute, 45*time.Minute)
 	scratchRoot = fmt.Sprintf("%s-%d", scratchRoot, os.Getpid())
 	debug.SetGCPercent(400) // allocation-heavy XML/JSON parsing; memory is not the constraint
 	if f := os.Getenv("VERIF_REPLAY"); f != "" {
